@@ -20,7 +20,7 @@ import (
 
 // An Op is one call on the manager.
 type Op struct {
-	Kind   string `json:"kind"` // add | addv | prune
+	Kind   string `json:"kind"` // add | addv | prune; ext.go: reopen | addv-bad (Height = which documented precondition is broken)
 	Nodes  []int  `json:"nodes,omitempty"`
 	Height uint64 `json:"height,omitempty"`
 }
@@ -28,6 +28,12 @@ type Op struct {
 func (o Op) String() string {
 	if o.Kind == "prune" {
 		return fmt.Sprintf("prune(%d)", o.Height)
+	}
+	if o.Kind == "reopen" {
+		return "reopen"
+	}
+	if o.Kind == "addv-bad" {
+		return fmt.Sprintf("addv-bad/%d%v", o.Height, o.Nodes)
 	}
 	return fmt.Sprintf("%s%v", o.Kind, o.Nodes)
 }
@@ -38,6 +44,7 @@ type Case struct {
 	Regime int              `json:"regime"`
 	Opts   chaingen.GenOpts `json:"opts"`
 	Plan   []Op             `json:"plan"`
+	Modes  []string         `json:"modes,omitempty"` // opt-in ways of driving the node (ext.go); empty = plain
 }
 
 // Tree regenerates the case's tree.
@@ -68,6 +75,11 @@ type Obs struct {
 	MinReorg int
 	TipState []byte
 	AboveTip int // number of heights above the tip for which BestIndex still answers
+	// filled only under the opt-in modes of ext.go
+	Hung           bool     `json:",omitempty"` // the call did not return (the node is unusable afterwards; nothing else is observed)
+	Polled         []int    `json:",omitempty"` // tips a concurrent reader saw during the call (node index, -2 unknown)
+	ListenerFaults []string `json:",omitempty"` // what a reorg listener that reads the manager saw differently from its argument
+	ListenerPruned []uint64 `json:",omitempty"` // heights handed to PruneBlocks from inside the reorg listener
 }
 
 // A Sim is a real manager over a store, fed from a tree.
@@ -77,6 +89,8 @@ type Sim struct {
 	CM       *chain.Manager
 	notified int
 	full     map[types.BlockID][]byte // encoded full state per valid node
+	db       chain.DB                 // what NewSim opened the store on (nil for NewSimOver): needed by the reopen op
+	ext      extState                 // opt-in modes (ext.go)
 }
 
 // NewSim starts a manager at genesis over db (nil = MemDB).
@@ -88,7 +102,7 @@ func NewSim(t *chaingen.Tree, db chain.DB) *Sim {
 	if err != nil {
 		panic(err)
 	}
-	s := &Sim{T: t, Store: store, CM: chain.NewManager(store, ts), full: map[types.BlockID][]byte{}}
+	s := &Sim{T: t, Store: store, CM: chain.NewManager(store, ts), full: map[types.BlockID][]byte{}, db: db}
 	s.CM.OnReorg(func(types.ChainIndex) { s.notified++ })
 	for _, n := range t.Nodes {
 		if n.ChainValid() {
@@ -119,6 +133,9 @@ func encState(cs consensus.State) []byte {
 
 // Do performs op and observes.
 func (s *Sim) Do(op Op) (o Obs) {
+	if s.ext.on || op.Kind == "reopen" || op.Kind == "addv-bad" {
+		return s.doExt(op, true)
+	}
 	before := s.notified
 	func() {
 		defer func() {
